@@ -11,13 +11,16 @@ def files(rpc_names=("Import", "Yield", "Fetch"), file_name="acme/lab/v1/global.
     G.add_message(fd, "Spec", [G.F("class", 1, T.TYPE_STRING), G.F("size", 2, T.TYPE_INT32), G.F("type", 3, T.TYPE_STRING)])
     G.add_message(fd, "Req", [G.F("name", 1, T.TYPE_STRING), G.F("type", 2, T.TYPE_STRING), G.F("format", 3, T.TYPE_MESSAGE, type_name=".acme.lab.v1.Spec"),
                               G.F("spec", 4, T.TYPE_MESSAGE, type_name=".acme.lab.v1.Spec"), G.F("max", 5, T.TYPE_INT32, required=True),
-                              G.F("in", 6, T.TYPE_STRING, required=True), G.F("meta", 7, T.TYPE_MESSAGE, type_name=".acme.lab.v1.Meta")])
+                              G.F("in", 6, T.TYPE_STRING, required=True), G.F("meta", 7, T.TYPE_MESSAGE, type_name=".acme.lab.v1.Meta"),
+                              G.F("from", 8, T.TYPE_MESSAGE, type_name=".acme.lab.v1.Spec")])
     G.add_message(fd, "Resp", [G.F("any", 1, T.TYPE_STRING)])
     svc = G.add_service(fd, "Lab")
     for i, rn in enumerate(rpc_names):
         G.add_method(svc, rn, ".acme.lab.v1.Req", ".acme.lab.v1.Resp", http=("post", "/v1/{type=kinds/*}/{spec.class=classes/*}:m%d" % i), body="format",
                      signatures=["name,type,spec.class,max"] if i == 0 else [],
                      routing=[("in", ""), ("type", "{type=kinds/*}")] if i == 1 else None)
+    # a path variable below a message-typed field that is itself named by a keyword: every segment of the attribute path takes its underscore
+    G.add_method(svc, "Below", ".acme.lab.v1.Req", ".acme.lab.v1.Resp", http=("get", "/v1/{from.type=sources/*}/items"))
     return [meta, fd]
 
 
@@ -72,6 +75,17 @@ def scenarios():
                 want = {"in": "x", "type": "kinds/k"} if rpc == "Yield" else {"type": "kinds/k", "spec.class": "classes/c"}
                 if hdr != want:
                     failures.append({"case": f"{which} {py}() routing header keys", "got": hdr, "want": want})
+            cases += 1
+            seen.clear()
+            try:
+                r = cl.below(request={"from_": {"type_": "sources/s1"}, "in_": "x"})
+                if which == "async":
+                    asyncio.run(_aw(r))
+                hdr = dict(urllib.parse.parse_qsl(seen[0][2][0])) if seen and seen[0][2] else {}
+                if hdr != {"from.type": "sources/s1"}:
+                    failures.append({"case": f"{which} below() routing header", "got": hdr, "want": {"from.type": "sources/s1"}})
+            except Exception as e:       # noqa
+                failures.append({"case": f"{which} below()", "error": repr(e)[:200]})
             # flattened parameters: reserved top-level and dotted leaf
             cases += 1
             seen.clear()
